@@ -195,6 +195,7 @@ func (config Config) NewSession(nic string) (session *Session, err error) {
 	// Start a minute loop goroutine to check for offline transition
 	go func(h *Session) {
 		ticker := time.NewTicker(time.Minute)
+		ticker = verifTicker(ticker)
 		for {
 			select {
 			case <-ticker.C:
